@@ -339,6 +339,10 @@ def cross_kind_decode_harness(fx, k1m, k2, k2_path, k2_methods, hname, props, ti
     """C04 script: the message type of kind K2 does not accept the name of a K1-only method"""
     if any(o.wire() == k1m.wire() for o in k2_methods):
         return ""
+    if not fx.get("names_known", True):
+        # in fx_odd the wire name of a method is not its identifier (`setup_2` serialises as `setup2`, which is also
+        # the identifier of the instantiate handler): the table cannot say which keys the other kind must reject
+        return ""
     fields = ", ".join("(\"%s\", script::Sv::U(x%d as u64))" % (a, k) for k, (a, t) in enumerate(k1m.args))
     body = """
     #[kani::proof]
